@@ -67,3 +67,22 @@ let register_c13 reg =
     | [m; rates; cs; outs] -> show_bool (jit_ok (zv m) (zlist rates) (zlist outs))
     | _ -> failwith "jitter_ok: arity")
 let () = section register_c13
+
+(* ---- C17 / C01 *)
+let outcome_of z = match z_to_int z with 0 -> OSucc | 1 -> OFail | 2 -> ODrop | _ -> OUnknown
+let sop_of = function
+  | L [I t; o; ns] when z_to_int t = 0 -> SRecord (outcome_of (zv o), zv ns)
+  | L [I t] when z_to_int t = 1 -> SSnapshot
+  | L [I t] when z_to_int t = 2 -> STotal
+  | _ -> failwith "sop"
+let show_q (((a, c), mn), mx) = "[" ^ String.concat "," (List.map z_to_string [a; c; mn; mx]) ^ "]"
+let show_snap (((d, p), ls), lf) = "[" ^ z_to_string d ^ "," ^ show_q p ^ "," ^ show_q ls ^ "," ^ show_q lf ^ "]"
+let register_c17 reg =
+  reg "stats_run" (function
+    | [ops] -> "ok " ^ show_list show_snap (stats_run stats0 (List.map sop_of (lv ops)))
+    | _ -> failwith "stats_run: arity");
+  reg "c01_ok" (function
+    | [ns; nf; nd; ts; tf; td; mon; ms; mf; md] ->
+      show_bool (c01_ok (zv ns) (zv nf) (zv nd) (zv ts) (zv tf) (zv td) (bv mon) (zv ms) (zv mf) (zv md))
+    | _ -> failwith "c01_ok: arity")
+let () = section register_c17
